@@ -609,8 +609,12 @@ class NUMERIC(FieldType):
         if default is None:
             if numtype is int:
                 default = typecode_max[self.sortable_typecode]
-            else:
+            elif signed:
                 default = NaN
+            else:
+                # util.numeric.NaN has its sign bit set, which an unsigned
+                # float field rejects; use the sign-clear NaN there
+                default = abs(NaN)
         elif not self.is_valid(default):
             raise Exception("The default %r is not a valid number for this "
                             "field" % default)
